@@ -6,7 +6,7 @@ set -u
 dir=$(cd "$1" && pwd); tier=${2:-quick}
 cd "$(dirname "$0")/.."
 if ! git -C /repo diff --quiet; then echo "refusing: /repo has uncommitted changes"; exit 2; fi
-props=$(python3 -c "import json,sys; m=json.load(open('$dir/meta.json')); print(' '.join([m['property']]+m.get('also',[])))")
+props=$(python3 -c "import json,re; m=json.load(open('$dir/meta.json')); print(' '.join(dict.fromkeys(re.findall(r'C[0-9][0-9]', ' '.join([m['property']]+m.get('also',[]))))))")
 git -C /repo apply "$dir/patch.diff" || { echo "patch does not apply"; exit 2; }
 trap 'git -C /repo checkout -- . ; git -C /repo clean -fdq -- . 2>/dev/null' EXIT
 rc=0
